@@ -19,7 +19,7 @@ from sim.terms import EX, XSD, T, key, skey, u
 
 ID = "C13"
 LEVEL = "exploration"
-TIERS = {"quick": {"runs": 640}, "thorough": {"runs": 16000, "wall_cap": 3300}}
+TIERS = {"quick": {"runs": 2400, "wall_cap": 600}, "thorough": {"runs": 50000, "wall_cap": 3300}}
 RULE = (
     "each evaluation is one seeded state (Graph, Dataset default_union off/on, ConjunctiveGraph; <=4 graphs incl. a blank-node-named and an "
     "empty created graph, falsy terms, an rdf:List) followed by a seeded schedule of <=25 read-only calls: serialise in every registered "
@@ -523,7 +523,7 @@ def execute(trace, ctx):
                 else:
                     ctx.check(same(ans, ans2, op), "C13.repeat-differs", lambda: f"{where}: same read twice in a row gave different answers:\n 1: {str(ans)[:600]}\n 2: {str(ans2)[:600]}", opk=k, what=op.get("what"), fmt=op.get("format"))
             ctx.log(k, f"{op.get('format') or op.get('what') or op.get('q')} {'ERR ' + type(err).__name__ if err else 'ok'} faulted={faulted}")
-            ctx.state(kind, k, op.get("format") or op.get("what") or op.get("q"), len(lazies))
+            ctx.state(kind, k, op.get("format") or op.get("what") or op.get("q"), op.get("dest"), op.get("on"), repr(op.get("pat")), len(lazies), len(before_q), len(before_c), faulted)
     finally:
         import shutil
 
